@@ -356,10 +356,13 @@ func (f *fake) respond(w http.ResponseWriter, r *http.Request, key string, sp sp
 		end = "unexp"
 	}
 	sv.BodyN = int64(len(eff))
-	if !f.big {
+	if !f.big || len(eff) <= 1<<16 {
 		sv.Body = hex.EncodeToString(eff)
 	}
 	sv.End = end
+	if sp.has("stall") {
+		sv.End = "stall"
+	}
 	end = sp.str("end")
 	if end == "" {
 		end = "clean"
@@ -382,7 +385,7 @@ func (f *fake) respond(w http.ResponseWriter, r *http.Request, key string, sp sp
 		return
 	}
 	f.record(sv)
-	if end == "clean" && (declared == int64(len(body)) || r.Method == http.MethodHead) && !sp.has("rawcl") {
+	if end == "clean" && (declared == int64(len(body)) || r.Method == http.MethodHead) && !sp.has("rawcl") && !sp.has("stall") {
 		for k, v := range hdr {
 			w.Header().Set(k, v)
 		}
@@ -414,6 +417,13 @@ func (f *fake) respond(w http.ResponseWriter, r *http.Request, key string, sp sp
 		bw.Write(body)
 	}
 	bw.Flush()
+	if n, ok := sp.num("stall"); ok {
+		// nothing more arrives for n seconds (longer than the 30 s stall timer of downloadChunk)
+		select {
+		case <-time.After(time.Duration(n) * time.Second):
+		case <-r.Context().Done():
+		}
+	}
 	if end == "reset" {
 		// let the client read what was sent, then reset
 		time.Sleep(100 * time.Millisecond)
